@@ -3,7 +3,7 @@ from __future__ import annotations
 
 from typing import Any, List
 
-from ..facts import AnalysisError
+from ..facts import AnalysisError, norm
 from ..report import Check
 from ..symexec import SymExec, freeze, show, Path, Event
 from .. import opmodel as om
@@ -59,6 +59,7 @@ def check(chk: Check) -> None:
     chk.decided += ['deep copy dominates all stores of the four assignment forms the grammar has',
                     'no aliasing second store in those functions']
     chk.assumptions += ['copy.deepcopy of plain data returns a disjoint object graph (stdlib); closures are immutable and may be shared']
+    _r3(chk)
     forms = common.assignment_forms(chk)
     if len(forms) < 4:
         raise AnalysisError('expected 4 assignment forms in the grammar, found %d' % len(forms))
@@ -180,6 +181,92 @@ def _check_paths(chk, R1, R2, fm, label, q, fi, paths, dest, rhs_of, need_store)
     chk.require(not problems1, R1, cons, fi.where,
                 '; '.join(sorted(set(problems1))) or '%d store statement(s), each storing copy.deepcopy(rhs)' % len(store_nodes))
     chk.require(not problems2, R2, cons, fi.where, '; '.join(sorted(set(problems2))) or 'no other store of the value')
+
+
+def _r3(chk: Check) -> None:
+    """copy.deepcopy(value) copies only as far as the copy module is left alone: its dispatch tables and copyreg decide which
+    types are handed back as they are, and a class can opt out of being copied through the copy protocol."""
+    import ast
+    F = chk.facts
+    R3 = chk.rule('C12.R3', 'the deep copy is the library\'s deep copy: nothing in the package writes into the copy / copyreg modules '
+                            '(dispatch tables, registered reducers, replaced functions), and no package class answers the copy '
+                            'protocol (__deepcopy__, __copy__, __reduce_ex__, __reduce__) with its own receiver unless it is an '
+                            'immutable scalar', floor=1)
+    MODS = ('copy', 'copyreg')
+
+    def target_of(m, n):
+        """Dotted library name an expression denotes, if it lies in copy/copyreg."""
+        root = n
+        while isinstance(root, (ast.Attribute, ast.Subscript)):
+            try:
+                r = F.resolve_expr(m, root) if isinstance(root, ast.Attribute) else None
+            except Exception:
+                r = None
+            if r is not None and r[0] in ('ext', 'extmod') and (r[1] in MODS or r[1].split('.')[0] in MODS):
+                return r[1]
+            root = root.value
+        if isinstance(root, ast.Name):
+            r = F.resolve_expr(m, root)
+            if r[0] in ('ext', 'extmod') and (r[1] in MODS or r[1].split('.')[0] in MODS):
+                return r[1]
+        return None
+    writes = []
+    n_mod = 0
+    for m in F.modules.values():
+        if '.ply' in m.name:
+            continue
+        n_mod += 1
+        for n in ast.walk(m.tree):
+            tgts = []
+            if isinstance(n, ast.Assign):
+                tgts = n.targets
+            elif isinstance(n, (ast.AugAssign, ast.AnnAssign)):
+                tgts = [n.target]
+            elif isinstance(n, ast.Delete):
+                tgts = n.targets
+            for t in tgts:
+                for x in (t.elts if isinstance(t, (ast.Tuple, ast.List)) else [t]):
+                    if isinstance(x, (ast.Attribute, ast.Subscript)):
+                        d = target_of(m, x)
+                        if d:
+                            writes.append(('%s:%d' % (m.rel, n.lineno), 'writes into %s (`%s`)' % (d, norm(n)[:80])))
+            if isinstance(n, ast.Call):
+                f = n.func
+                if isinstance(f, ast.Attribute) and f.attr in ('update', 'setdefault', 'pop', 'clear', '__setitem__', '__delitem__', 'popitem'):
+                    d = target_of(m, f.value)
+                    if d and d not in MODS:
+                        writes.append(('%s:%d' % (m.rel, n.lineno), 'changes %s (`%s`)' % (d, norm(n)[:80])))
+                r = F.resolve_expr(m, f) if isinstance(f, (ast.Name, ast.Attribute)) else None
+                if r is not None and r[0] == 'ext' and r[1] in ('copyreg.pickle', 'copyreg.constructor'):
+                    writes.append(('%s:%d' % (m.rel, n.lineno), 'registers a reducer (`%s`)' % norm(n)[:80]))
+                if r == ('builtin', 'setattr') and n.args:
+                    r0 = F.resolve_expr(m, n.args[0]) if isinstance(n.args[0], (ast.Name, ast.Attribute)) else None
+                    if r0 is not None and r0[0] in ('ext', 'extmod') and r0[1].split('.')[0] in MODS:
+                        writes.append(('%s:%d' % (m.rel, n.lineno), 'replaces an attribute of %s (`%s`)' % (r0[1], norm(n)[:80])))
+    for wh, det in writes:
+        chk.bad(R3, 'copy machinery :: %s' % det, wh, det + ': which values deepcopy hands back un-copied is no longer the library\'s '
+                'decision - a type registered as atomic (tuple, a container class) is shared with everything reachable through it')
+    if not writes:
+        chk.ok(R3, 'copy machinery', 'smartquery/*.py', '%d module(s): no write into copy / copyreg' % n_mod)
+    SCALAR_BASES = {'decimal.Decimal', 'int', 'float', 'str', 'bytes', 'bool', 'complex', 'fractions.Fraction'}
+    for cq, ci in sorted(F.classes.items()):
+        if '.ply' in ci.module.name:
+            continue
+        for mn in ('__deepcopy__', '__copy__', '__reduce_ex__', '__reduce__'):
+            q = cq + '.' + mn
+            if mn not in ci.methods or q not in F.functions:
+                continue
+            fi = F.func(q)
+            scalar = any(b in SCALAR_BASES for b in F.ext_bases(cq))
+            selfp = ('param', fi.node.args.args[0].arg) if fi.node.args.args else None
+            rets_self = False
+            try:
+                rets_self = any(p.normal and freeze(p.outcome[1]) == selfp for p in SymExec(F, fi).run())
+            except Exception:
+                rets_self = True
+            chk.require(scalar or not rets_self, R3, q, fi.where,
+                        'answers the copy protocol with the object itself although it is not an immutable scalar: deepcopy shares it '
+                        'and everything it holds' if not (scalar or not rets_self) else 'copy protocol of %s' % ('a scalar' if scalar else 'a class that builds a new object'))
 
 
 def _pd(p: Path) -> str:
